@@ -14,7 +14,7 @@ pub static C05: P05 = P05;
 pub struct P06;
 pub static C06: P06 = P06;
 
-pub const CONTENTS05: [&str; 5] = ["", "a", "bb cc dd", "e<br>f", "中中 g"];
+pub const CONTENTS05: [&str; 6] = ["", "a", "bb cc dd", "e<br>f", "中中 g", "<table><tr><td>1</td><td>2</td></tr></table>"];
 pub const CONTENTS06: [&str; 5] = ["", "X", "XX XX XX", "X<br>X", "XXXXXX"];
 
 #[derive(Debug, PartialEq)]
@@ -25,7 +25,7 @@ pub enum Form {
 }
 
 /// C05's invariant on a rendered regular table.  Err(kind, message).
-pub fn check_borders(lines: &[&str], w: usize) -> Result<Form, (String, String)> {
+pub fn check_borders(lines: &[&str], w: usize, nested: bool) -> Result<Form, (String, String)> {
     if lines.is_empty() {
         return Ok(Form::Empty);
     }
@@ -48,7 +48,19 @@ pub fn check_borders(lines: &[&str], w: usize) -> Result<Form, (String, String)>
     if stacked_ok {
         return Ok(Form::Stacked);
     }
-    if has_slash {
+    if nested {
+        // A nested table may itself be stacked ('/' rules narrower than w inside a cell) or
+        // side by side inside a stacked outer table.  Outer side-by-side form = all lines
+        // equally wide (checked below together with the junction rule); otherwise the outer
+        // table must be in stacked form: full-width first and last rules.
+        let equal = g.iter().all(|r| r.len() == g[0].len());
+        if !equal {
+            let full = |r: &Vec<char>| r.len() == w && r.iter().all(|&c| c == '─');
+            if full(&g[0]) && full(g.last().unwrap()) {
+                return Ok(Form::Stacked);
+            }
+        }
+    } else if has_slash {
         return Err(("stacked form is malformed".into(), "a '/' rule is present but the stacked-form conditions do not hold".into()));
     }
     // side by side
@@ -74,8 +86,10 @@ pub fn check_borders(lines: &[&str], w: usize) -> Result<Form, (String, String)>
             }
         }
     }
-    // bars stand on every line of a band
-    let mut y = 0;
+    // bars stand on every line of a band.  With a nested table in a cell, further rules, bars
+    // and junctions appear inside the band: they are subject to the local junction rule above
+    // (and to the equal-width rule) but need not span the band.
+    let mut y = if nested { g.len() } else { 0 };
     while y < g.len() {
         if pure_rule(&g[y]) {
             let mut y2 = y + 1;
@@ -135,12 +149,12 @@ struct S {
     shapes: Vec<Shape>,
     maxw: usize,
 }
-fn shapes(tier: Tier) -> Vec<Shape> {
+fn shapes(tier: Tier, ncontents: usize) -> Vec<Shape> {
     let list: Vec<(usize, usize)> = match tier {
         Tier::Quick => vec![(1, 1), (1, 2), (1, 3), (2, 1), (2, 2), (2, 3)],
         Tier::Thorough => vec![(1, 1), (1, 2), (1, 3), (2, 1), (2, 2), (2, 3), (3, 1), (3, 2), (1, 4), (2, 4)],
     };
-    list.into_iter().map(|(r, c)| Shape { rows: r, cols: c, n: n_tables(r, c, 5) }).collect()
+    list.into_iter().map(|(r, c)| Shape { rows: r, cols: c, n: n_tables(r, c, ncontents) }).collect()
 }
 fn table_for(which: u8, rows: usize, cols: usize, index: u64) -> TableCase {
     // C06 uses one unique letter per cell; C05 uses fixed content classes (mapped to the
@@ -148,7 +162,7 @@ fn table_for(which: u8, rows: usize, cols: usize, index: u64) -> TableCase {
     if which == 6 {
         table_case(rows, cols, &CONTENTS06, index, &|h| h.to_string())
     } else {
-        let mut t = table_case(rows, cols, &["", "X1", "X2", "X3", "X4"], index, &|h| h.to_string());
+        let mut t = table_case(rows, cols, &["", "X1", "X2", "X3", "X4", "X5"], index, &|h| h.to_string());
         // substitute the content classes (letters are irrelevant for C05)
         let mut html = t.html.clone();
         for (i, c) in CONTENTS05.iter().enumerate().skip(1) {
@@ -174,7 +188,8 @@ fn check05(t: &TableCase, c: &Case, cx: &mut Cx) {
         }
     };
     let lines: Vec<&str> = s.lines().collect();
-    match check_borders(&lines, c.width) {
+    let nested = t.html.matches("<table>").count() > 1;
+    match check_borders(&lines, c.width, nested) {
         Ok(Form::SideBySide) => {
             cx.stat("side-by-side");
             if t.cols >= 2 {
@@ -385,7 +400,7 @@ impl Scope for S {
     }
     fn info(&self) -> Info {
         Info {
-            rule: format!("all regular tables of the listed shapes, every row independently tiled by every composition of the column count into colspans, every cell content from 5 classes ({}), x every width; plain decorator with borders; the output is parsed into a character-cell grid; non-trivial = laid out side by side with >= 2 columns", if self.which == 5 { "empty, short, three words, two lines, wide characters" } else { "empty, one token, three words, two lines, a long word – one unique letter per cell" }),
+            rule: format!("all regular tables of the listed shapes, every row independently tiled by every composition of the column count into colspans, every cell content from 5 (C05: 6) classes ({}), x every width; plain decorator with borders; the output is parsed into a character-cell grid; non-trivial = laid out side by side with >= 2 columns", if self.which == 5 { "empty, short, three words, two lines, wide characters, a nested 1x2 table" } else { "empty, one token, three words, two lines, a long word – one unique letter per cell" }),
             bounds: json!({"shapes": self.shapes.iter().map(|s| json!({"rows": s.rows, "cols": s.cols, "tables": s.n})).collect::<Vec<_>>(), "widths": format!("1..={}", self.maxw), "contents": if self.which == 5 { CONTENTS05.to_vec() } else { CONTENTS06.to_vec() }}),
             assumptions: vec!["cell text never contains box drawing characters or '/'".into()],
         }
@@ -396,7 +411,7 @@ impl Prop for P05 {
         "C05"
     }
     fn build(&self, tier: Tier) -> Box<dyn Scope> {
-        Box::new(S { which: 5, shapes: shapes(tier), maxw: tier.pick(30, 60) })
+        Box::new(S { which: 5, shapes: shapes(tier, 6), maxw: tier.pick(30, 60) })
     }
     fn replay(&self, case: &Value, cx: &mut Cx) {
         let c: Case = serde_json::from_value(case.clone()).expect("C05 case");
@@ -408,7 +423,7 @@ impl Prop for P06 {
         "C06"
     }
     fn build(&self, tier: Tier) -> Box<dyn Scope> {
-        Box::new(S { which: 6, shapes: shapes(tier), maxw: tier.pick(30, 60) })
+        Box::new(S { which: 6, shapes: shapes(tier, 5), maxw: tier.pick(30, 60) })
     }
     fn replay(&self, case: &Value, cx: &mut Cx) {
         let c: Case = serde_json::from_value(case.clone()).expect("C06 case");
